@@ -31,6 +31,15 @@ extern ssize_t mpt_stream_push(MPT_STRUCT(stream) *stream, size_t len, const voi
 		flags &= ~MPT_STREAMFLAG(WriteBuf);
 	}
 	
+	/* message removal: result is data position, not consumed size */
+	if (len && !src) {
+		ssize_t post;
+		if ((post = mpt_queue_push(&stream->_wd, len, 0)) < 0) {
+			return post;
+		}
+		stream->_info._fd &= ~MPT_STREAMFLAG(MesgActive);
+		return 0;
+	}
 	while (1) {
 		ssize_t post;
 		
